@@ -48,7 +48,7 @@ def listjoin(*args):
 
 
 def cond_opers(i):
-    L = [lambda i: [(Token.Literal, CONDITION[i.operands[0]][0])]]
+    L = [lambda i: [(Token.Literal, CONDITION[i.operands[0].value][0])]]
     for pos, o in enumerate(i.operands[1:], 1):
         if o._is_reg:
             L.append(opreg(pos))
